@@ -258,6 +258,18 @@ parse_next_record_header:
     */
     if (ssl->rec.type == SSL_RECORD_TYPE_CHANGE_CIPHER_SPEC)
     {
+        if (MATRIX_IS_SERVER(ssl) &&
+                ssl->hsState == SSL_HS_TLS_1_3_START &&
+                !ssl->tls13IncorrectDheKeyShare)
+        {
+            /* RFC 8446, 5: a change_cipher_spec record received before
+               the first ClientHello is an unexpected record type. (After
+               a HelloRetryRequest we are back in the START state, but then
+               the compatibility CCS is legal.) */
+            psTraceErrr("change_cipher_spec before ClientHello\n");
+            ssl->err = SSL_ALERT_UNEXPECTED_MESSAGE;
+            goto encodeResponse;
+        }
         rc = tls13ParseChangeCipherSpec(ssl, &pb, requiredLen);
         HANDLE_PARSE_RC(rc, SSL_ALERT_ILLEGAL_PARAMETER);
         psTraceInfo("Ignoring change_cipher_spec...\n");
